@@ -458,7 +458,9 @@ class XMLParserMixin(
             uri = "http://backend.userland.com/rss"
             loweruri = uri
         if loweruri in self._matchnamespaces:
-            self.namespacemap[prefix] = self._matchnamespaces[loweruri]
+            # (lower-cased like the strict parser does, so that both back ends
+            # build the same keys for 'creativeCommons' and 'blogChannel')
+            self.namespacemap[prefix] = self._matchnamespaces[loweruri].lower()
             self.namespaces_in_use[self._matchnamespaces[loweruri]] = uri
         else:
             self.namespaces_in_use[prefix or ""] = uri
